@@ -87,7 +87,8 @@ def create_future(vc, vary='all', kind=None):
     # statement-level options
     s_cl, s_scl = _opt_int(vc, 'stmt_cl'), _opt_int(vc, 'stmt_serial_cl', serial=True)
     s_retry = _opt_obj(vc, 'stmt_retry_policy')
-    s_fetch = FETCH_SIZE_UNSET if (not _on('fetch') or ctx.branch(vc.bool('stmt_fetch_unset').t)) else vc.int('stmt_fetch_size')
+    # the statement's page size: left unset (the session default applies), explicitly None (paging switched off for this statement - a setting, not "unset"), or a number
+    s_fetch = FETCH_SIZE_UNSET if (not _on('fetch') or ctx.branch(vc.bool('stmt_fetch_unset').t)) else (None if ctx.branch(vc.bool('stmt_fetch_is_none').t) else vc.int('stmt_fetch_size'))
     idem = _choice(vc, 'is_idempotent', [True, False], 'idempotence')
     s_ks = 'stmt_ks' if _choice(vc, 'stmt_has_keyspace', [True, False], 'keyspace') else None
     common = dict(consistency_level=s_cl, serial_consistency_level=s_scl, retry_policy=s_retry, fetch_size=s_fetch,
